@@ -157,7 +157,7 @@ Theorem dsir_rho_rows_accepted : forall g R trec ord rho tmin tmax full fuel out
   exists rest, so_rows (o_sim out) = (tmin, [(order g - n - 0)%Z; n; 0%Z]) :: rest.
 Proof.
   intros g R trec ord rho tmin tmax full fuel out Hnd Hadj Hord Hpick H. cbv zeta.
-  destruct (dsir_rho g R trec ord None rho tmin tmax full fuel out Hnd H) as [Hn [i0 [Hi0nd [Hi0 [Hlen Hr]]]]].
+  destruct (dsir_rho g R trec ord None rho tmin tmax full fuel out Hnd H) as [_ [Hn [i0 [Hi0nd [Hi0 [Hlen Hr]]]]]].
   assert (Hwf : wf_inputb g i0 (opt_list None) = true).
   { apply wf_inputb_intro; try assumption; cbn [opt_list]; try (intros v []); [constructor|intros v _ []]. }
   destruct (dsir_run _ _ _ _ _ _ _ _ _ _ _ Hwf Hord Hpick Hr) as [K [t [st [rows [hl [tl [Hrun [Hstop [Er _]]]]]]]]].
@@ -177,10 +177,26 @@ Theorem psir_both_rejected : forall g R ord i0 r0o rho tmin tmax full fuel,
 Proof.
   intros g R ord i0 r0o rho tmin tmax full fuel. unfold percolation_based_discrete_SIR_R, percolate_network_R. split.
   - intros out H. apply reach_bind in H. destruct H as [hq [_ H]]. apply reach_bind in H. destruct H as [o [Ho _]].
-    unfold discrete_SIR in Ho. cbn [with_initial] in Ho. inversion Ho.
+    rewrite dsir_both_rejected in Ho. inversion Ho.
   - intros e H. apply reach_err_bind in H. destruct H as [H|[hq [_ H]]].
     + apply reach_err_bind in H. destruct H as [H|[kq [_ H]]]; [right; eexists; eexists; eexists; exact H|inversion H].
     + apply reach_err_bind in H. destruct H as [H|[o [Ho _]]].
-      * unfold discrete_SIR in H. cbn [with_initial] in H. inversion H. left. reflexivity.
-      * unfold discrete_SIR in Ho. cbn [with_initial] in Ho. inversion Ho.
+      * rewrite dsir_both_rejected in H. inversion H. left. reflexivity.
+      * rewrite dsir_both_rejected in Ho. inversion Ho.
+Qed.
+
+(* ... and rho together with initial_recovereds: percolate_network has already drawn its coins (one
+   test per edge of G) when discrete_SIR raises EoNError *)
+Theorem psir_rho_r0_rejected : forall g R ord i0o r0 rho tmin tmax full fuel,
+  percolation_based_discrete_SIR_R g R ord i0o (Some r0) (Some rho) tmin tmax full fuel =
+    bind (percolate_network_R g R) (fun _ => Fail EoNError) /\
+  (forall out, ~ reach (percolation_based_discrete_SIR_R g R ord i0o (Some r0) (Some rho) tmin tmax full fuel) out) /\
+  (forall e, reach_err (percolation_based_discrete_SIR_R g R ord i0o (Some r0) (Some rho) tmin tmax full fuel) e ->
+     e = EoNError \/ exists es kept q, reach_err (perc_loop R es kept q) e).
+Proof.
+  intros g R ord i0o r0 rho tmin tmax full fuel. unfold percolation_based_discrete_SIR_R. split; [reflexivity|]. split.
+  - intros out H. apply reach_bind in H. destruct H as [hq [_ H]]. cbn [discrete_SIR bind] in H. inversion H.
+  - intros e H. apply reach_err_bind in H. destruct H as [H|[hq [_ H]]].
+    + unfold percolate_network_R in H. apply reach_err_bind in H. destruct H as [H|[kq [_ H]]]; [right; eexists; eexists; eexists; exact H|inversion H].
+    + cbn [discrete_SIR bind] in H. inversion H. left. reflexivity.
 Qed.
